@@ -11,12 +11,12 @@ import (
 const vPkgPath = "github.com/trustbloc/sidetree-core-go/pkg/"
 
 type vKey struct {
-	id, typ   string
-	purposes  []string
-	material  int // 0 jwk, 1 base58, 2 multibase, 3 none
-	jwkX      string
-	b58, mb   string
-	edFails   bool
+	id, typ  string
+	purposes []string
+	material int // 0 jwk, 1 base58, 2 multibase, 3 none
+	jwkX     string
+	b58, mb  string
+	edFails  bool
 }
 
 var vTypes = []string{"Bls12381G2Key2020", "JsonWebKey2020", "EcdsaSecp256k1VerificationKey2019", "Ed25519VerificationKey2018", "Ed25519VerificationKey2020", "X25519KeyAgreementKey2019", "SomeUnknownKeyType"}
@@ -27,6 +27,17 @@ var vCtxOf = map[string]string{
 	"Ed25519VerificationKey2018":        "https://w3id.org/security/suites/ed25519-2018/v1",
 	"Ed25519VerificationKey2020":        "https://w3id.org/security/suites/ed25519-2020/v1",
 	"X25519KeyAgreementKey2019":         "https://w3id.org/security/suites/x25519-2019/v1",
+}
+
+// vMirrorCtxOf: a caller-configured key-context map (WithKeyContext) that differs from the built-in one for
+// every type: what is emitted must follow the configured map, and nothing else may depend on it.
+var vMirrorCtxOf = map[string]string{
+	"Bls12381G2Key2020":                 "https://mirror.example/bls12381-2020/v1",
+	"JsonWebKey2020":                    "https://mirror.example/jws-2020/v1",
+	"EcdsaSecp256k1VerificationKey2019": "https://mirror.example/secp256k1-2019/v1",
+	"Ed25519VerificationKey2018":        "https://mirror.example/ed25519-2018/v1",
+	"Ed25519VerificationKey2020":        "https://mirror.example/ed25519-2020/v1",
+	"X25519KeyAgreementKey2019":         "https://mirror.example/x25519-2019/v1",
 }
 var vPurposeNames = []string{"authentication", "assertionMethod", "keyAgreement", "capabilityDelegation", "capabilityInvocation", "someOtherPurpose"}
 
@@ -148,6 +159,12 @@ func vProjection(mode int) {
 	if methodCtx {
 		opts = append(opts, WithMethodContext([]string{"https://method/ctx"}))
 	}
+	ctxOf := vCtxOf
+	if pickBool(mode == 0, "opt.keyContext", false) {
+		ctxOf = vMirrorCtxOf
+		opts = append(opts, WithKeyContext(vMirrorCtxOf))
+		VCover("custom-key-contexts")
+	}
 	tr := New(opts...)
 
 	res, err := tr.TransformDocument(rm, info) // REAL code
@@ -192,7 +209,7 @@ func vProjection(mode int) {
 	ctxArr, _ := ext["@context"].([]interface{})
 	nScalarCtx := len(wantCtx)
 	for _, k := range keys {
-		c := vCtxOf[k.typ]
+		c := ctxOf[k.typ]
 		dup := false
 		for _, w := range wantCtx[nScalarCtx:] {
 			if w == c {
